@@ -188,10 +188,40 @@ package jxpath
 //@   requires marker != nil
 //@   ensures [C19:only-decimal-year-formats] !ret("isDecimalFormat#0", 0) ==> (r1 == errUnsupported && len(r0) == 0)
 //@   atcall[C19:cut-to-width] pow10#0 requires callee_n == size && 1 <= size && size <= 18
-// formatHour: 24-hour clock as is; 12-hour clock: hours above 12 count from 1 again
+// formatHour: the 24-hour clock shows the hour 0..23 as is; the 12-hour clock shows 12, 1, 2, ..., 11 (midnight and
+// noon are 12, never 0)
 //@ func formatHour
 //@   props C19 C09
 //@   requires marker != nil
-//@   atcall[C19:twelve-hour-clock] formatIntegerComponent#0 requires callee_n == ((hour12 && ret("time.Time.Hour#0", 0) > 12) ? ret("time.Time.Hour#0", 0) - 12 : ret("time.Time.Hour#0", 0)) && callee_marker == marker
+//@   atcall[C19:twenty-four-hour-clock] formatIntegerComponent#0 requires !hour12 ==> callee_n == ret("time.Time.Hour#0", 0)
+//@   atcall[C19:twelve-hour-clock-12-1-11] formatIntegerComponent#0 requires (hour12 && 0 <= ret("time.Time.Hour#0", 0) && ret("time.Time.Hour#0", 0) <= 23) ==> callee_n == (ret("time.Time.Hour#0", 0) % 12 == 0 ? 12 : ret("time.Time.Hour#0", 0) % 12)
+//@   atcall formatIntegerComponent#0 requires callee_marker == marker
+
+// Numeric time-zone components [Z] [z]: the sign is that of the whole offset (hours and minutes have the same sign
+// or are zero: getTimezoneInfo) - '-' exactly when the offset is negative, also for -00:30 - and the digits are those
+// of the magnitudes of the hours and minutes.
+//@ func formatInteger
+//@   props C19 C09
+//@   assigns nothing
+//@   trusted
+//@ func formatTimezoneShort
+//@   props C19 C09
+//@   precise-append
+//@   requires h > MinInt64 && m > MinInt64
+//@   ensures [C19:sign-of-the-offset] r1 == nil ==> (len(r0) >= 1 && r0[0] == ((h < 0 || m < 0) ? 45 : 43))
+//@   atcall[C19:hour-digits-are-the-magnitude] formatInteger#0 requires callee_n == (h < 0 ? -h : h)
+//@ func formatTimezoneLong
+//@   props C19 C09
+//@   precise-append
+//@   requires -100000 < h && h < 100000 && -100 < m && m < 100
+//@   ensures [C19:sign-of-the-offset] r1 == nil ==> (len(r0) >= 1 && r0[0] == ((h < 0 || m < 0) ? 45 : 43))
+//@   atcall[C19:hhmm-digits-are-the-magnitudes] formatInteger#0 requires callee_n == (h < 0 ? -h : h) * 100 + (m < 0 ? -m : m)
+//@ func formatTimezoneSplit
+//@   props C19 C09
+//@   precise-append
+//@   requires h > MinInt64 && m > MinInt64
+//@   ensures [C19:sign-of-the-offset] r1 == nil ==> (len(r0) >= 1 && r0[0] == ((h < 0 || m < 0) ? 45 : 43))
+//@   atcall[C19:hour-digits-are-the-magnitude] formatInteger#0 requires callee_n == (h < 0 ? -h : h)
+//@   atcall[C19:minute-digits-are-the-magnitude] formatInteger#1 requires callee_n == (m < 0 ? -m : m)
 
 // END OF CONTRACTS (package jxpath)
